@@ -1,0 +1,49 @@
+//go:build verif
+// +build verif
+
+package mod_prison
+
+import (
+	"github.com/bfenetworks/bfe/bfe_basic"
+	"github.com/bfenetworks/bfe/bfe_basic/action"
+)
+
+// VerifRule wraps a real prisonRule for the out-of-tree verification harness (build tag verif).
+// The rule is built by newPrisonRule + initDict; only the two period fields are then set in
+// nanoseconds directly (the configuration file can only express whole seconds).
+type VerifRule struct{ r *prisonRule }
+
+// VerifNewRule builds a rule whose access key is the value of request header X-Verif-Key.
+func VerifNewRule(checkNs, stayNs int64, threshold int32, accessCap, prisonCap int) (*VerifRule, error) {
+	cond := "default_t()"
+	name := "verif"
+	one := int64(1)
+	conf := PrisonRuleConf{
+		Cond:           &cond,
+		Action:         &action.Action{Cmd: "CLOSE"},
+		AccessSignConf: &AccessSignConf{Header: []string{"X-Verif-Key"}},
+		Name:           &name,
+		CheckPeriod:    &one,
+		StayPeriod:     &one,
+		Threshold:      &threshold,
+		AccessDictSize: &accessCap,
+		PrisonDictSize: &prisonCap,
+	}
+	if err := PrisonRuleCheck(&conf); err != nil {
+		return nil, err
+	}
+	r, err := newPrisonRule(conf)
+	if err != nil {
+		return nil, err
+	}
+	r.checkPeriodNs = checkNs
+	r.stayPeriodNs = stayNs
+	r.initDict(nil)
+	return &VerifRule{r}, nil
+}
+
+// RecordAndCheck calls the real prisonRule.recordAndCheck.
+func (v *VerifRule) RecordAndCheck(req *bfe_basic.Request) bool { return v.r.recordAndCheck(req) }
+
+// DictLens returns the number of entries of the access and the prison dictionary.
+func (v *VerifRule) DictLens() (int, int) { return v.r.accessDict.Len(), v.r.prisonDict.Len() }
